@@ -337,6 +337,72 @@ def finish_cmd(pid, st):
     return res
 
 
+MODE = 'fork'
+
+
 def run(world, cmd, args, **kw):
+    if MODE == 'cold' and not kw.get('pty_stdin') and not kw.get('sched_sock'):
+        return run_cold(world, cmd, args, **kw)
     pid, st = run_cmd(world, cmd, args, **kw)
     return finish_cmd(pid, st)
+
+
+def run_cold(world, cmd, args, stdin=b'', plan=None, cwd=None, env=None,
+             contracts=None, argv0=None, watchdog=None, **_ignored):
+    """the same command in a FRESH interpreter: a real subprocess of
+    /venv/bin/python running the script, the shim installed by
+    vf/boot/sitecustomize.py (TRASHCLI_VERIF=1)"""
+    import subprocess
+    script = os.path.join(REPO, SCRIPTS.get(cmd, cmd))
+    e = dict(world.env())
+    if env:
+        for k, v in env.items():
+            if v is None:
+                e.pop(k, None)
+            else:
+                e[k] = v
+    plan = dict(DEFAULT_PLAN, **(plan or {}))
+    if contracts is None:
+        contracts = DEFAULT_CONTRACTS
+    res = Result()
+    res.argv = [cmd] + list(args)
+    tag = time.monotonic_ns()
+    logpath = os.path.join(world.scratch, 'log.%d' % tag)
+    planpath = os.path.join(world.scratch, 'plan.%d.json' % tag)
+    with open(planpath, 'w') as f:
+        json.dump({'root': world.R, 'mounts': world.mounts, 'uid': world.uid,
+                   'plan': plan, 'log': logpath, 'contracts': contracts}, f)
+    e.update({'TRASHCLI_VERIF': '1', 'VF_PLAN': planpath,
+              'PYTHONPATH': os.path.join(HERE, 'boot') + os.pathsep + REPO,
+              'PYTHONDONTWRITEBYTECODE': '1', 'LC_ALL': 'C.UTF-8',
+              'PYTHONIOENCODING': 'utf-8:strict', 'PYTHONHASHSEED': '0'})
+    t0 = time.monotonic()
+    try:
+        p = subprocess.run([PY, script] + list(args), input=stdin, env=e,
+                           cwd=cwd or world.cwd(), capture_output=True,
+                           timeout=watchdog or WATCHDOG_S)
+        res.exit = p.returncode if p.returncode >= 0 else p.returncode
+        if p.returncode < 0:
+            res.signal = -p.returncode
+        res.out, res.err = p.stdout, p.stderr
+    except subprocess.TimeoutExpired as ex:
+        res.timeout = True
+        res.exit = -9
+        res.out, res.err = ex.stdout or b'', ex.stderr or b''
+    res.wall = time.monotonic() - t0
+    try:
+        with open(logpath, 'rb') as f:
+            parse_log(f.read(), res)
+        os.unlink(logpath)
+    except OSError:
+        pass
+    try:
+        os.unlink(planpath)
+    except OSError:
+        pass
+    for c in res.contracts:
+        if len(CONTRACT_FAILS) < 20:
+            CONTRACT_FAILS.append(dict(c, argv=res.argv))
+    for k, n in res.ccounts.items():
+        CONTRACT_COUNTS[k] = CONTRACT_COUNTS.get(k, 0) + n
+    return res
